@@ -951,3 +951,20 @@ def build(tier):
         ],
         'trusted': ['Eigen lpNorm<2>() of a difference is a function of its operands', 'std::any move assignment', 'std::vector::emplace_back grows the size by one'],
     }
+
+
+def replay(rp):
+    """counterexamples of C13 are protocol-level (a ghost grid point / a symbolic (trial, fold)): the replay runs the
+    property's own postconditions on the real library -- the real tuner_t::optimize under a recording callback over
+    grids/landscapes/budgets, and the real ml::result_t through its public API -- and reports a violation it observes"""
+    import replaylib
+    out = {'reproduced': False, 'runs': []}
+    tgt = rp.get('target', '')
+    which = 'result' if ('result' in tgt or 'tune::' in tgt or '_trial' in tgt) else 'tuner'
+    exe = replaylib.build_with_library('replay/C13_replay.cpp', 'C13_replay')
+    rc, so, se = replaylib.run_driver(exe, [which], timeout=600)
+    out['runs'].append({'which': which, 'exit': rc, 'output': so.strip()[-3000:]})
+    # exit 1: a postcondition of the property is violated on the real code; a negative code is a crash of the real code
+    # (e.g. an out-of-range slot) while the driver exercises it -- both are reproductions
+    out['reproduced'] = rc == 1 or rc < 0
+    return out
